@@ -47,6 +47,7 @@ type caseCfg struct {
 	DirectBFD                    int // goroutines calling bfdSend.Send directly
 	Retained                     bool
 	HotStop                      bool // Shutdown while the processor queues are full
+	CloseMode                    int  // result of a write on a closed socket (fakeConn.closeResult)
 	GateConn                     int  // connection whose sender is blocked for a while (-1: none)
 }
 
@@ -139,7 +140,14 @@ func genCfg(r *vgen.Rand, i int) caseCfg {
 		c.Slow = c.Procs
 	}
 	c.DirectBFD = vgen.Pick(r, 0, 0, 1, 2)
-	c.Retained = c.Batch >= 3 && r.Chance(1, 2)
+	c.Retained = r.Chance(1, 2)
+	c.CloseMode = vgen.Pick(r, 0, 2, 3, 4, 5)
+	if c.Retained {
+		c.CloseMode = vgen.Pick(r, 2, 3, 4, 5)
+		if c.Batch >= 3 {
+			c.CloseMode = vgen.Pick(r, 1, 1, 2, 3, 4, 5)
+		}
+	}
 	c.HotStop = !c.Retained && r.Chance(1, 2)
 	if c.Profile == "bfd" {
 		c.BFD = true
@@ -236,6 +244,7 @@ func runCase(cfg caseCfg, r *vgen.Rand) (out caseOut) {
 			c.pErr.Store(int32(cfg.PErr))
 			c.readErrPct = cfg.ReadErr
 			c.slowUs, c.goschedPct = cfg.SlowUs, cfg.Gosched
+			c.closeMode.Store(int32(cfg.CloseMode))
 			live = append(live, c)
 		}
 	}
@@ -410,7 +419,8 @@ func runCase(cfg caseCfg, r *vgen.Rand) (out caseOut) {
 		// A sender that holds a batch when the router stops: block the sender of if 2 in
 		// WriteBatch with one packet, let the queue fill behind it, let that write through,
 		// block the next (full) batch, and stop the router: Close releases the write with a
-		// partial count.
+		// partial count, -1 and net.ErrClosed (plain or wrapped), or -1 and another error
+		// (cfg.CloseMode).
 		c := conns[cExt2]
 		if cfg.BFD && !dp.InterfaceUp(2) {
 			c = conns[cExt1]
@@ -436,7 +446,7 @@ func runCase(cfg caseCfg, r *vgen.Rand) (out caseOut) {
 			time.Sleep(time.Millisecond)
 			c.closePartial.Store(true)
 			c.permits <- struct{}{}
-			if waitFor(time.Second, func() bool { return c.waiting.Load() > 0 && c.maxBatch.Load() >= 2 }) {
+			if waitFor(time.Second, func() bool { return c.waiting.Load() > 0 && (cfg.CloseMode != 1 || c.maxBatch.Load() >= 2) }) {
 				out.Stats["retained_armed"] = 1
 			}
 		}
@@ -724,7 +734,8 @@ func main() {
 		"with fake sockets: seeded configuration (batch 1-8, 1-3 processors, 1-2 slow-path " +
 		"processors, GOMAXPROCS 1-8, shared or own sibling socket, BFD on/off), 40-120 datagrams of " +
 		"21 kinds under 7 traffic profiles, partial/failed WriteBatch, read errors, slow and blocked " +
-		"senders, direct bfdSend.Send callers, optional sender holding a batch at shutdown, optional " +
+		"senders, direct bfdSend.Send callers, optional sender holding a batch at shutdown (the write " +
+		"then returns a partial count, -1 with net.ErrClosed plain/wrapped, or -1 with another error), optional " +
 		"Shutdown with overflowing processor queues, one packet per processor queue delivered after " +
 		"the stop (discarded by the processor / dropped by the slow path); " +
 		"non-trivial = buffers were returned by at least 3 different stages and at least one fault " +
@@ -823,6 +834,7 @@ func main() {
 		if out.Stats["write_errors"] > 0 {
 			run.Tally("case-with-write-error")
 		}
+		run.Tally(fmt.Sprintf("write-on-closed-socket-mode:%d", cfg.CloseMode))
 		if out.Stats["hot_stop"] > 0 {
 			run.Tally("case-stopped-with-full-processor-queues")
 		}
